@@ -1,9 +1,16 @@
-// Package proxy plugs the wire-proxy layer into the C11 monitor.
+// Package proxy plugs the wire-proxy layers into the C11 monitor.
 package proxy
 
 import (
+	"verif/harness/internal/ev"
 	"verif/harness/internal/props/c11"
 	"verif/harness/internal/props/proxylayers"
 )
 
-func init() { c11.ProxyLayer = proxylayers.Masking }
+func init() {
+	c11.ProxyLayer = func(r *ev.Run) {
+		proxylayers.Masking(r)
+		// masked columns inside longer session histories and next to other protected columns
+		proxylayers.MaskingHistory(r)
+	}
+}
